@@ -153,6 +153,10 @@ def gen(ctx, size):
             directed.append([x, (1 << k) - x - 1, 1])
     directed.append([L - 1] * 17)
     directed.append([(1 << 252) - 1] * 33)
+    # long sums: the integer sum of n reduced scalars exceeds 2^256 from n = 16 on, 2^264 from about 4100 on, ...
+    for n_ in (257, 4100, 8300, 20000):
+        directed.append([L - 1] * n_)
+        directed.append([rng.choice([L - 1, L - 2, (1 << 252) + 5, rng.randrange(L)]) for _ in range(n_)])
     for xs in directed:
         xs = [x % L for x in xs]
         pr = 1
@@ -228,7 +232,7 @@ def task(prop, seed, size, cfgbins):
 
 def run(prop, tier, seed, t0):
     from .. import plan
-    cfgs = ['serial64', 'serial32'] if tier == 'quick' else ['serial64', 'serial32', 'fiat64', 'fiat32', 'simd']
+    cfgs = ['serial64', 'serial32', 'simd-legacy'] if tier == 'quick' else ['serial64', 'serial32', 'fiat64', 'fiat32', 'simd', 'simd-legacy']
     profiles = ('rel', 'chk') if tier == 'thorough' else ('rel', 'chk')
     bins, notes, failed = plan.bins_for(cfgs, profiles)
     if failed:
